@@ -98,6 +98,10 @@ class TextFileStorage(Storage[str]):
 
         self._waiting_for = multiprocessing.Value('i', 0)
 
+        # a process identifier is valid only until the storage is flushed
+        self._flush_cnt = multiprocessing.Value('i', 0)
+        self._process_identifier_flush_cnt = 0
+
     def __enter__(self):
         self.open()
         return self
@@ -132,8 +136,13 @@ class TextFileStorage(Storage[str]):
             # already opened
             return
 
+        if self._process_identifier is not None and self._process_identifier_flush_cnt != self._flush_cnt.value:
+            # the storage was flushed, so the file of this process was removed and the identifier is not valid anymore
+            self._process_identifier = None
+
         if self._process_identifier is None:
             with self._storage_lock:
+                self._process_identifier_flush_cnt = self._flush_cnt.value
                 self._process_identifier = len(self._file_paths)
                 path = self._path + "/" + self._file_prefix + "_" + str(self._process_identifier)
                 self._file_paths.append(path)
@@ -170,6 +179,7 @@ class TextFileStorage(Storage[str]):
             self._index[:] = []
             self._stored_cnt.value = 0
             self._waiting_for.value = 0
+            self._flush_cnt.value += 1
 
     def is_contiguous(self) -> bool:
         """
